@@ -290,7 +290,7 @@ def donor_pool(cat: str) -> tuple:
     return gen.OTHER_DONORS.get(cat, ())
 
 
-def single_edit_grid(programs, tier, shard, nshards, seed, n_expr=6, thin=1):
+def single_edit_grid(programs, tier, shard, nshards, seed, n_expr=6, thin=1, remove_optsets=({},), cut=False):
     """Deterministic grid of one-step cases: every node target of every program x {replace by each of a few donors of its category (plain,
     parenthesised, multi-line, compound) in src / fst form with pars auto / True, remove}. Yields case dicts for checks built on apply_step()."""
 
@@ -311,7 +311,7 @@ def single_edit_grid(programs, tier, shard, nshards, seed, n_expr=6, thin=1):
             pool = donor_pool(cat)
             want = want_expr if cat == 'expr' else want_store if cat == 'expr_store' else pool[:3]
             picks = [pool.index(w) for w in want if w in pool]
-            variants = [('remove', None, 'src', 'auto')]
+            variants = [('remove', None, 'src', o) for o in remove_optsets] + ([('cut', None, 'src', o) for o in remove_optsets] if cut else [])
 
             for j in picks:
                 for form, pars in (('src', 'auto'), ('fst', True), ('fst', 'auto'), ('src', True)):
@@ -326,9 +326,58 @@ def single_edit_grid(programs, tier, shard, nshards, seed, n_expr=6, thin=1):
                 if thin > 1 and (k * 2654435761 + seed * 40503) % thin:
                     continue
 
-                step = {'tsel': ti, 'form': form, 'dsel': 7 * (j or 0), 'opts': {} if pars == 'auto' else {'pars': True}, 'op': op, 'anycat': False, 'layout': []}
+                opts = dict(pars) if isinstance(pars, dict) else {} if pars == 'auto' else {'pars': True}
+                step = {'tsel': ti, 'form': form, 'dsel': 7 * (j or 0), 'opts': opts, 'op': op, 'anycat': False, 'layout': []}
 
                 yield {'src': src, 'steps': [step], 'grid': True}
+
+
+GRID_OPTSETS = ({}, {'docstr': False}, {'docstr': 'strict'}, {'trivia': 'all'}, {'trivia': ['none', 'none']}, {'trivia': 'block+1'}, {'trivia': ['all+', 'all+']},
+                {'pep8space': False}, {'elif_': False}, {'pars': True}, {'trivia': False})
+
+
+def slice_edit_grid(programs, tier, shard, nshards, seed, optsets=GRID_OPTSETS, thin=1, only_ops=None):
+    """Deterministic grid of one-step slice cases: every container of every program x {insert at each position, append, extend, prepend, put_slice and
+    delete of each single element, delete of everything} x two donors x option sets."""
+
+    import ast as _ast
+
+    k = 0
+
+    for src in programs:
+        try:
+            conts = container_targets(_ast.parse(src))
+        except SyntaxError:
+            continue
+
+        for ci, (parent, field, n) in enumerate(conts):
+            kind = slice_kind(parent, field)
+            nd = len(SLICE_DONORS.get(kind, ()))
+
+            if not nd:
+                continue
+
+            m = min(n if n is not None else 3, 4)
+            ops = [('insert', i, i) for i in range(m + 1)] + [('insert', 7, 7), ('append', 0, 0), ('extend', 0, 0), ('prepend', 0, 0), ('prextend', 0, 0)]
+            ops += [('put_slice', i, i + 1) for i in range(m)] + [('delslice', i, i + 1) for i in range(m)] + [('delslice', 0, 7), ('put_slice', 0, 7), ('view_replace', 0, 1),
+                                                                                                               ('get_slice_cut', 0, 1), ('setslice', 1, 7)]
+
+            for op, a, b in ops:
+                if only_ops and op not in only_ops:
+                    continue
+
+                for ds in range(min(nd, 2)) if not op.startswith(('del', 'get_')) else (0,):
+                    for oi, o in enumerate(optsets):
+                        k += 1
+
+                        if k % nshards != shard:
+                            continue
+
+                        if thin > 1 and (k * 2654435761 + seed * 40503) % thin:
+                            continue
+
+                        yield {'src': src, 'steps': [{'tsel': ci, 'form': 'src' if (k // 7) % 3 else 'fst', 'dsel': ds, 'opts': dict(o), 'op': op, 'start': a, 'stop': b, 'one': False}],
+                               'grid': True}
 
 
 def donor_source(cat: str, step: dict) -> str:
